@@ -1,27 +1,10 @@
 #!/usr/bin/env python3
-"""Generate MANIFEST.json from the table below (kept in one place so it stays valid)."""
-import json, os
+"""Generate MANIFEST.json: one check per rule module under rules/ (metadata in each module's META),
+everything else under not_applicable with its reason."""
+import importlib, json, os, sys
 
 HERE = os.path.dirname(os.path.dirname(os.path.abspath(__file__)))
-
-CLAIMED = {
-    # id: (technique, level text, level note, design ref)
-    'C14': ('CFG may-analysis for NULL dominance + lockset dataflow + dominance of range tests + call-graph reachability of blocking primitives',
-            'Decides four structural clauses on every path of all EB_API functions: NULL-argument tests dominate every dereference '
-            '(interprocedural), no API exit leaves a mutex held (so a rejected configuration leaves the handle usable), caller-controlled '
-            'counts are range-tested before bounding array accesses in the set_parameter flow, and only allow-listed blocking primitives '
-            'are reachable per API function. Structure, not behaviour: it does not execute call sequences.',
-            'clang 14 front end/CFG; production flags from CMake (-DNDEBUG); handle-internal state (p_component_private) assumed valid; '
-            'function-pointer targets resolved from address-taken facts',
-            'DESIGN.md section 5 C14'),
-    'C23': ('lockset dataflow (pairing, order, guarded-by with interprocedural entry locksets) + dominance/post-dominance (wait=>pop, push=>post) + control dependence + ring wrap-idiom recognition on EbSystemResourceManager.c',
-            'Decides the structural protocol clauses of the System Resource Manager on every path of its 30-odd functions: lock pairing, '
-            'queue->fifo lock order, guarded-by of ring buffers / fifo links / wrapper counters, push=>post, wait=>pop, quit-guarded pop, '
-            'FIFO direction and ring index arithmetic shape, release condition. These are necessary conditions of safe hand-out and wake-up '
-            'under every interleaving; liveness of the whole protocol and lost-wake-up freedom of the non-blocking get are not decided.',
-            'pthread semantics; callers classified single-threaded (init/dctor) by call-graph reachability are excluded from the entry-lockset intersection',
-            'DESIGN.md section 5 C23'),
-}
+sys.path.insert(0, HERE)
 
 NOT_APPLICABLE = {
     'C01': 'sample-exact equality of two long arithmetic pipelines over runtime samples; no code-shape clause decides it (C25/C06/C07 cover necessary table/dispatch conditions)',
@@ -31,15 +14,17 @@ NOT_APPLICABLE = {
     'C26': 'numeric equality of SSE over runtime buffers; which buffers are compared depends on runtime frame type',
     'C27': 'quantifies over application call histories and pool occupancy; its only structural ingredient (polling APIs use the non-blocking get) is decided under C14 rule 4',
 }
+PENDING = 'static check designed (DESIGN.md section 5) but not implemented in this revision; not claimed'
 
 
 def main():
     props = [json.loads(l) for l in open(os.path.join(HERE, 'properties.jsonl'))]
     ids = [p['id'] for p in props]
-    checks = []
+    checks, na, claimed = [], [], []
     for pid in ids:
-        if pid in CLAIMED:
-            tech, text, note, ref = CLAIMED[pid]
+        if os.path.exists(os.path.join(HERE, 'rules', pid + '.py')) and pid not in NOT_APPLICABLE:
+            m = importlib.import_module('rules.' + pid).META
+            claimed.append(pid)
             checks.append({
                 'property_id': pid,
                 'quick_cmd': './check %s --tier quick' % pid,
@@ -47,15 +32,12 @@ def main():
                 'evidence_file': '/verif/evidence/%s.json' % pid,
                 'replay_cmd_template': './check %s --replay {path}' % pid,
                 'engine': 'svtfacts',
-                'level_claimed': {'category': 'other', 'text': text, 'design_ref': ref},
-                'level_note': note,
-                'technique': 'static analysis: ' + tech,
+                'level_claimed': {'category': 'other', 'text': m['text'], 'design_ref': m['ref']},
+                'level_note': m['note'],
+                'technique': 'static analysis: ' + m['technique'],
             })
-    na = []
-    for pid in ids:
-        if pid not in CLAIMED:
-            reason = NOT_APPLICABLE.get(pid) or PENDING.get(pid)
-            na.append({'property_id': pid, 'reason': reason})
+        else:
+            na.append({'property_id': pid, 'reason': NOT_APPLICABLE.get(pid, PENDING)})
     m = {
         'version': 1,
         'setup_cmd': 'python3 -m engine.setup',
@@ -69,7 +51,7 @@ def main():
         'engines': [{
             'name': 'svtfacts',
             'path': 'engine/',
-            'serves_properties': sorted(CLAIMED),
+            'serves_properties': claimed,
             'kind_free_text': 'repository-specific static analyser: libTooling (clang 14) extractor emitting per-function event-CFGs, '
                               'structured control contexts, macro-expansion stacks, records and globals for every unit of the real '
                               'CMake compile database; Python rule modules (dominance, lockset, taint/nullness, call-graph reachability, '
@@ -83,11 +65,6 @@ def main():
     json.dump(m, open(os.path.join(HERE, 'MANIFEST.json'), 'w'), indent=1)
     print('MANIFEST: %d checks, %d not applicable' % (len(checks), len(na)))
 
-
-# properties whose rule module is not implemented yet (kept honest: listed as not claimed until the check exists)
-PENDING = {pid: 'static check designed (DESIGN.md section 5) but not yet implemented in this revision; not claimed'
-           for pid in ['C02', 'C03', 'C04', 'C05', 'C06', 'C07', 'C09', 'C10', 'C12', 'C13', 'C15', 'C16', 'C17', 'C18', 'C20',
-                       'C21', 'C22', 'C23', 'C24', 'C25'] if pid not in CLAIMED}
 
 if __name__ == '__main__':
     main()
